@@ -88,9 +88,15 @@ func recvBase(e ast.Expr) string {
 	}
 }
 
+// pkgTypes[dir] = names of the types declared in that package (filled by parsePkg).
+var pkgTypes = map[string]map[string]bool{}
+
 // parsePkg collects every function of one package directory of the repo.
 func parsePkg(repo, dir string) map[string]*funcInfo {
 	out := map[string]*funcInfo{}
+	if pkgTypes[dir] == nil {
+		pkgTypes[dir] = map[string]bool{}
+	}
 	ents, err := os.ReadDir(filepath.Join(repo, dir))
 	if err != nil {
 		return out
@@ -126,6 +132,13 @@ func parsePkg(repo, dir string) map[string]*funcInfo {
 			imports[local] = d
 		}
 		for _, d := range f.Decls {
+			if gd, ok := d.(*ast.GenDecl); ok && gd.Tok == token.TYPE {
+				for _, sp := range gd.Specs {
+					if ts, ok := sp.(*ast.TypeSpec); ok {
+						pkgTypes[dir][ts.Name.Name] = true
+					}
+				}
+			}
 			fd, ok := d.(*ast.FuncDecl)
 			if !ok {
 				continue
@@ -282,27 +295,78 @@ func modelledFuncs(verif, repo, id string) map[string]string {
 			}
 		}
 	}
-	// closure by name, within the package and across golib packages
-	for len(work) > 0 {
-		fi := work[len(work)-1]
-		work = work[:len(work)-1]
-		p := load(fi.pkg)
-		for _, g := range p {
-			if g.name == "<decls>" || g.name == "<unparsable>" {
-				continue
-			}
-			if fi.calls[g.name] {
-				add(g)
+	// closure by name, within the package and across golib packages.  A method is only
+	// reachable through a receiver type that is in scope: named by the harness, or
+	// referred to by a function already in the set.
+	inScope := map[string]map[string]bool{} // pkg -> type names
+	scope := func(pkg, typ string) {
+		if inScope[pkg] == nil {
+			inScope[pkg] = map[string]bool{}
+		}
+		inScope[pkg][typ] = true
+	}
+	for dir := range pkgs {
+		for t := range pkgTypes[dir] {
+			if names[t] {
+				scope(dir, t)
 			}
 		}
-		for k := range fi.xpkg {
-			parts := strings.SplitN(k, ":", 2)
-			q := load(parts[0])
-			for _, g := range q {
-				if g.name == parts[1] || (g.recv != "" && g.recv == parts[1]) {
+	}
+	for _, fi := range set {
+		if fi.recv != "" {
+			scope(fi.pkg, fi.recv)
+		}
+	}
+	changed := true
+	for changed {
+		changed = false
+		before := len(set)
+		nScope := 0
+		for _, m := range inScope {
+			nScope += len(m)
+		}
+		for _, fi := range set {
+			// types referred to by this function come into scope
+			for t := range pkgTypes[fi.pkg] {
+				if fi.calls[t] {
+					scope(fi.pkg, t)
+				}
+			}
+			p := load(fi.pkg)
+			for _, g := range p {
+				if g.name == "<decls>" || g.name == "<unparsable>" || !fi.calls[g.name] {
+					continue
+				}
+				if g.recv == "" || inScope[g.pkg][g.recv] {
 					add(g)
 				}
 			}
+			for k := range fi.xpkg {
+				parts := strings.SplitN(k, ":", 2)
+				q := load(parts[0])
+				if pkgTypes[parts[0]][parts[1]] {
+					scope(parts[0], parts[1])
+				}
+				for _, g := range q {
+					if g.recv == "" && g.name == parts[1] {
+						add(g)
+					}
+				}
+				// methods of a type of another package: reachable by name once the type is in scope
+				for _, g := range q {
+					if g.recv != "" && inScope[g.pkg][g.recv] && fi.calls[g.name] {
+						add(g)
+					}
+				}
+			}
+		}
+		work = work[:0]
+		n2 := 0
+		for _, m := range inScope {
+			n2 += len(m)
+		}
+		if len(set) != before || n2 != nScope {
+			changed = true
 		}
 	}
 	out := map[string]string{}
